@@ -78,7 +78,7 @@ func genCommentBody(t *rapid.T) string {
 	return s
 }
 
-var verbatimTags = []string{"{{ v0 -}}", "{{- v1 }}", "{%- if v0 -%}", "{{- spy(5) -}}", "{#- c -#}", "{{ v0 }}", "{{ v1|upper }}", "{% if v0 %}", "{% endif %}", "{{ spy(3) }}", "{% set q = spy(4) %}", "{# c #}", "{{ 'lit' ~ v0 }}", "{% for i in v0 %}", "{% endfor %}", "{% include v1 %}"}
+var verbatimTags = []string{"{% EndVerbatim %}", "{% ENDVERBATIM %}", "{% Verbatim %}", "{% end verbatim %}", "{{ v0 -}}", "{{- v1 }}", "{%- if v0 -%}", "{{- spy(5) -}}", "{#- c -#}", "{{ v0 }}", "{{ v1|upper }}", "{% if v0 %}", "{% endif %}", "{{ spy(3) }}", "{% set q = spy(4) %}", "{# c #}", "{{ 'lit' ~ v0 }}", "{% for i in v0 %}", "{% endfor %}", "{% include v1 %}"}
 
 func genVerbatimBody(t *rapid.T) (string, bool) {
 	var b strings.Builder
@@ -616,6 +616,30 @@ func TestC04Dashes(t *testing.T) {
 						}
 					}
 				}
+			}
+		}
+	}
+}
+
+// TestC04LongComments: comments of every size class stay comments.
+func TestC04LongComments(t *testing.T) {
+	r := NewRec(t, "C04", "exhaustive: one comment whose body has 0..300000 bytes (22 sizes around 256, 4096, 8192, 32768, 65536, 131072) and contains print tags, between two texts, before and after a tag; oracle: the texts, nothing of the comment, no evaluation; all cases non-trivial")
+	defer r.Flush()
+	r.SetExhaustive()
+	for _, n := range []int{0, 1, 255, 256, 257, 4000, 4095, 4096, 4097, 8000, 8191, 8192, 8193, 9000, 32767, 32768, 32769, 65535, 65536, 65537, 131073, 300000} {
+		body := " " + strings.Repeat("c {{ spy(1) }} {{ p0 }} ", n/24+1)[:n] + " "
+		for form := 0; form < 3; form++ {
+			segs := []*S{Text("left "), {K: "comment", T: BStr(body)}, Text(" right")}
+			switch form {
+			case 1:
+				segs = append([]*S{Print(Var("p0"))}, segs...)
+			case 2:
+				segs = append(segs, Print(Var("p0")), &S{K: "comment", T: BStr(body)}, Text("end"))
+			}
+			c := C04Case{Segs: segs, Vals: map[string]BStr{"p0": "<P0>"}}
+			r.Case(fmt.Sprint(n, form), true, fmt.Sprintf("comment of %d bytes, form %d", n, form))
+			if err := checkC04(c); err != nil {
+				r.FailEnumKey(t, "C04.text", fmt.Sprint(form), c, err)
 			}
 		}
 	}
